@@ -18,7 +18,7 @@ cleanup() { git -C /repo worktree remove --force "$wt" 2>/dev/null; rm -rf "$wt"
 trap cleanup EXIT
 run_demo() { ( cd "$wt" && PYTHONPATH="$wt/src" MPLBACKEND=Agg timeout 600 /venv/bin/python -W ignore "$dst/demo.py" >"$dst/$1.log" 2>&1; echo $? ); }
 d0=$(run_demo demo_without)
-git -C "$wt" apply "$dst/patch.diff" 2>/dev/null || git -C "$wt" apply --3way "$dst/patch.diff" 2>/dev/null || patch -d "$wt" -p1 --fuzz=3 -s < "$dst/patch.diff" || { echo "PATCH DOES NOT APPLY"; echo '{"applies": false}' > "$dst/verdict.json"; exit 3; }
+git -C "$wt" apply "$dst/patch.diff" 2>/dev/null || patch -d "$wt" -p1 --fuzz=3 -s -r - < "$dst/patch.diff" || { echo "PATCH DOES NOT APPLY"; echo '{"applies": false}' > "$dst/verdict.json"; exit 3; }
 d1=$(run_demo demo_with)
 tests=$(cd "$wt" && PYTHONPATH="$wt/src" timeout 1500 /venv/bin/python -m pytest -q -p no:cacheprovider -n 6 tests/unit 2>&1 | tail -1)
 declare -A res
